@@ -112,6 +112,8 @@ type AttrIn = Vec<(String, Option<String>)>;
 fn key_strategy() -> BoxedStrategy<String> {
     prop_oneof![
         6 => "[a-z]{1,6}",
+        // keys that differ only in letter case are different keys
+        3 => select(vec!["path", "Path", "PATH", "k", "K", "key", "Key", "é", "É"]).prop_map(|s| s.to_string()),
         2 => vec(select(vec!['k', ';', ' ', 'é', '\u{13d}', '.', 'K', '\u{ff1d}']), 1..5).prop_map(|v| v.into_iter().collect::<String>()),
         1 => "[a-z]{200,250}",
     ]
@@ -129,8 +131,26 @@ fn value_strategy() -> BoxedStrategy<Option<String>> {
     .boxed()
 }
 
+/// an entry whose `key[=value]` length is exactly `total` bytes
+fn boundary_entry() -> BoxedStrategy<(String, Option<String>)> {
+    (250usize..=258, 1usize..=40, any::<bool>(), any::<bool>())
+        .prop_map(|(total, klen, with_value, multibyte)| {
+            if with_value {
+                let klen = klen.min(total - 1);
+                let mut v = "v".repeat(total - klen - 1);
+                if multibyte && v.len() >= 2 {
+                    v.replace_range(0..2, "é");
+                }
+                ("k".repeat(klen), Some(v))
+            } else {
+                ("k".repeat(total), None)
+            }
+        })
+        .boxed()
+}
+
 fn attr_strategy(_t: Tier) -> BoxedStrategy<AttrIn> {
-    vec((key_strategy(), value_strategy()), 0..6).boxed()
+    vec(prop_oneof![8 => (key_strategy(), value_strategy()), 1 => boundary_entry()], 0..6).boxed()
 }
 
 fn entry_len(k: &str, v: &Option<String>) -> usize {
